@@ -185,6 +185,7 @@ def step_state(l3, machine, sidx, sym_is_end, alloc, stats, want=('c06', 'c03', 
         ex = l3.call_feed(mem, 1, solver, inv, sx, max_steps=ms)
     d['queries'] += sx['queries']; d['solver_time'] += sx['solver_time']
     d['cov']['states'] += 1
+    d['cov']['transitions'] += len(apaths)
     d['cov']['c_paths'] += len(ex.paths); d['cov']['abs_paths'] += len(apaths)
     d['cov']['mem_obligations'] += ex.n_obl; d['cov']['mem_obligations_solver'] += ex.n_obl_solver
     symname = 'end' if sym_is_end else 'byte'
@@ -259,8 +260,6 @@ def step_state(l3, machine, sidx, sym_is_end, alloc, stats, want=('c06', 'c03', 
         if not hit:
             d['discharged'] += 1
             d['nontrivial'].append('c04:' + key)
-        if 'c06' not in want:
-            d['cov']['transitions'] += len(apaths)
     # ---- C06 / C17: pairwise comparison
     if 'c06' in want:
         cpaths = [p for p in ex.paths if p.kind != 'UNWIND']
@@ -312,7 +311,6 @@ def step_state(l3, machine, sidx, sym_is_end, alloc, stats, want=('c06', 'c03', 
                 solver.add(z3.Not(cpc[id(p)]))
             solver.pop()
         d['nontrivial'].append('c06:' + key)
-        d['cov']['transitions'] += len(apaths)
     if len(d['samples']) < 6 and apaths:
         d['samples'].append({'program': getattr(l3, 'label', '?'), 'state': sidx, 'symbol': symname, 'alloc': _amask(alloc), 'abstract_paths': len(apaths),
                              'c_paths': len(ex.paths), 'first_abstract_pc': str(z3.simplify(z3.And(*apaths[0][0])))[:200] if apaths[0][0] else 'true',
